@@ -27,8 +27,9 @@ def seeded(ctx, n):
             for scx in scripts:      # an informational response is always followed by an explicit final status
                 if scx["status"] != 0 and rng.random() < 0.15:
                     scx["early"] = True
-            steps.append({"method": rng.choice(["GET", "POST"]), "framing": rng.choice(["declared", "chunked"]),
-                          "size": rng.choice([0, 1, mem, mem + 1, 3 * mem]), "hdrs": ["X-A", "X-B2"], "scripts": scripts})
+            steps.append({"method": rng.choice(["GET", "POST"]), "framing": rng.choice(["declared", "chunked", "unknown"]),
+                          "size": rng.choice([0, 1, mem, mem + 1, 3 * mem]), "hdrs": ["X-A", "X-B2"], "scripts": scripts,
+                          "precancel": rng.random() < 0.2})
         out.append({"id": "rnd-%d" % i, "cfg": cfg, "steps": steps})
     return out
 
